@@ -3,3 +3,4 @@
 //! Drivers *record*; they never judge.  Every event is one JSON value per line,
 //! later validated by TLC against `spec/Trace_<Module>.tla`.
 pub mod trace;
+pub mod gate;
